@@ -139,7 +139,7 @@ def atom_info(a):
     if a in NUM_VARS:
         return ("n", False, a)
     if a.startswith(("C(", "T(", "S(")) and a.endswith(")"):
-        return ("c", True, a[2:-1])
+        return ("c", True, a[2:-1].split(",")[0].strip())   # T(f, 'f1'), C(f, Sum('f0')): the variable
     if a.startswith("scale(") and a.endswith(")"):
         return ("n", True, a[6:-1])
     if a.startswith(("poly(", "bs(")) and a.endswith(")"):
@@ -691,11 +691,19 @@ def permute_factors(rng, terms):
     return out
 
 
-def swap_atoms(rng, terms):
-    """replace variables by call atoms, consistently inside one formula"""
+def swap_atoms(rng, terms, levels=None):
+    """replace variables by call atoms, consistently inside one formula; with `levels` (level counts)
+    also codings with an EXPLICIT option that is not the default one: a reference that is not the
+    first level, an omitted level that is not the last (tenth seeded wave, C03_P: the complete
+    coding of a Treatment with an explicit reference lost that level's column)"""
     mapping = {}
     for v in CAT_VARS:
-        mapping[v] = rng.choice([v, v, f"C({v})", f"T({v})", f"S({v})"])
+        options = [v, v, f"C({v})", f"T({v})", f"S({v})"]
+        if levels is not None and levels.get(v, 0) >= 2:
+            last = levels[v] - 1
+            options += [f"T({v}, '{v}{last}')", f"T({v}, ref='{v}1')", f"C({v}, Treatment('{v}1'))",
+                        f"S({v}, '{v}0')", f"C({v}, Sum('{v}{max(last - 1, 0)}'))"]
+        mapping[v] = rng.choice(options)
     mapping["x"] = rng.choice(["x", "scale(x)"])
     mapping["z"] = "z"
     return [[mapping[a] for a in t] for t in terms]
@@ -843,7 +851,7 @@ def gen_cases(tier, seed):
     n_d = 250 if tier == "quick" else 6000
     for _ in range(n_d):
         n = rng.choice([1, 2, 2, 3, 3])
-        fam = swap_atoms(rng, permute_factors(rng, rng.sample(subs5, n)))
+        fam = swap_atoms(rng, permute_factors(rng, rng.sample(subs5, n)), levels)
         ic = rng.random() < 0.5
         cases.append(make_case(fam, ic, levels, shuffle, "atoms"))
         if any(atom_info(a)[1] for t in fam for a in t):
